@@ -477,20 +477,7 @@ class List(list, base.Symbolic, pg_typing.CustomTyping):
       self._onchange_callback(field_updates)
 
   def _parse_slice(self, index: slice) -> Tuple[int, int, int]:
-    start = index.start if index.start is not None else 0
-    start = max(-len(self), start)
-    start = min(len(self), start)
-    if start < 0:
-      start += len(self)
-
-    stop = index.stop if index.stop is not None else len(self)
-    stop = max(-len(self), stop)
-    stop = min(len(self), stop)
-    if stop < 0:
-      stop += len(self)
-
-    step = index.step if index.step is not None else 1
-    return start, stop, step
+    return index.indices(len(self))
 
   def _init_kwargs(self) -> typing.Dict[str, Any]:
     kwargs = super()._init_kwargs()
@@ -541,11 +528,17 @@ class List(list, base.Symbolic, pg_typing.CustomTyping):
     if isinstance(index, slice):
       start, stop, step = self._parse_slice(index)
       replacements = [self._formalized_value(i, v) for i, v in enumerate(value)]
+      extended = step != 1
       if step < 0:
+        # Use the equivalent forward slice.
+        indices = range(start, stop, step)
+        start, stop = (indices[-1], indices[0] + 1) if indices else (0, 0)
         replacements.reverse()
         step = -step
+      elif stop < start:
+        stop = start
       slice_size = math.ceil((stop - start) * 1.0 / step)
-      if step == 1:
+      if not extended:
         if slice_size < len(replacements):
           for i in range(slice_size, len(replacements)):
             replacements[i] = Insertion(replacements[i])
